@@ -164,6 +164,8 @@ def bootstrap(warmup=True, sim_locks=True):
     WORLD.registry = B.registry
     WORLD.initial_state = B.registry.state
     WORLD.caches = find_caches()
+    if not WORLD.caches and os.environ.get("EINX_CACHE_SIZE") != "0":
+        raise RuntimeError("no einx compile cache found: runs could not be isolated from each other")
     seed_uuid(0)
     if warmup:
         do_warmup()
@@ -176,15 +178,21 @@ def find_caches():
     import functools
 
     t = type(functools.lru_cache(maxsize=None)(lambda: None))
+
+    def is_einx(f, depth=0):
+        if f is None or depth > 6:
+            return False
+        if (getattr(f, "__module__", None) or "").startswith("einx"):
+            return True
+        code = getattr(f, "__code__", None)
+        if code is not None and "/einx/" in code.co_filename:
+            return True
+        return is_einx(getattr(f, "__wrapped__", None), depth + 1) or is_einx(getattr(f, "func", None), depth + 1)
+
     out = []
     for o in gc.get_objects():
-        if type(o) is t:
-            w = getattr(o, "__wrapped__", None)
-            mod = getattr(w, "__module__", None) or ""
-            f = getattr(w, "func", None)  # functools.partial(_construct_graph, ...)
-            mod2 = getattr(f, "__module__", "") or ""
-            if mod.startswith("einx") or mod2.startswith("einx"):
-                out.append(o)
+        if type(o) is t and is_einx(getattr(o, "__wrapped__", None)):
+            out.append(o)
     return out
 
 
